@@ -55,6 +55,7 @@ type Interner struct {
 	ufs    map[string]string // uf name -> declaration
 	vars   map[string]Sort
 	varSeq []string
+	nlUF   bool // abstract symbolic*symbolic products by an uninterpreted function with sign/zero/unit/growth axioms
 }
 
 func NewInterner() *Interner {
@@ -528,6 +529,12 @@ func (in *Interner) Mul(a, b *Term) *Term {
 			}
 		}
 	}
+	if s == SInt && in.nlUF && !a.IsConst() && !b.IsConst() {
+		if a.id > b.id {
+			a, b = b, a
+		}
+		return in.UF("nlmul", SInt, a, b)
+	}
 	return in.mk("*", s, []*Term{a, b}, "", nil)
 }
 
@@ -540,6 +547,9 @@ func (in *Interner) Div(a, b *Term) *Term {
 	if b.IsConst() && b.iv.IsInt64() && b.iv.Int64() == 1 {
 		return a
 	}
+	if in.nlUF && !b.IsConst() {
+		return in.UF("nldiv", SInt, a, b)
+	}
 	return in.mk("div", SInt, []*Term{a, b}, "", nil)
 }
 func (in *Interner) Mod(a, b *Term) *Term {
@@ -549,6 +559,9 @@ func (in *Interner) Mod(a, b *Term) *Term {
 	}
 	if b.IsConst() && b.iv.IsInt64() && b.iv.Int64() == 1 {
 		return in.I64(0)
+	}
+	if in.nlUF && !b.IsConst() {
+		return in.UF("nlmod", SInt, a, b)
 	}
 	return in.mk("mod", SInt, []*Term{a, b}, "", nil)
 }
